@@ -844,6 +844,28 @@ def rule_D5(ctx):
                 else:
                     r.fail(f.key, x, 'struct.pack of a float can raise OverflowError (value too large for the format); it is not caught here and is not a '
                            'documented exception class', loc=f.loc(x))
+    # bitarray's own shift operators take a C integer: a count of 2**63 or more raises OverflowError (the library's shifts accept
+    # any count and give all zeros), so a count reaching them must have been clamped to the length
+    for f in m.funcs.values():
+        if f.mod == '__main__':
+            continue
+        for x in own_walk(f.node):
+            if isinstance(x, (ast.BinOp, ast.AugAssign)) and isinstance(x.op, (ast.LShift, ast.RShift)):
+                left = x.left if isinstance(x, ast.BinOp) else x.target
+                right = x.right if isinstance(x, ast.BinOp) else x.value
+                if '_bitarray' not in ast.unparse(left):
+                    continue
+                n += 1
+                names = [y.id for y in ast.walk(right) if isinstance(y, ast.Name)]
+                clamped = isinstance(right, ast.Constant) or any(
+                    isinstance(y, ast.Assign) and any(isinstance(t, ast.Name) and t.id in names for t in y.targets) and isinstance(y.value, ast.Call)
+                    and isinstance(y.value.func, ast.Name) and y.value.func.id == 'min' and 'len(' in ast.unparse(y.value) for y in own_walk(f.node))
+                if clamped:
+                    r.ok(f'{f.key}:{norm(x)}')
+                else:
+                    r.fail(f.key, x, "bitarray's shift operator converts the count to a C integer: a count of 2**63 or more raises OverflowError here, "
+                           'while the library documents shifts by any count >= 0 (all zeros beyond the length); the count must be clamped to the length first',
+                           loc=f.loc(x), extra={'props': ['C16', 'C20']})
     if n < 6:
         raise AnalysisError(f'only {n} next()/struct.pack sites found (floor 6)')
     return r
